@@ -14,6 +14,7 @@ def main():
     ap.add_argument("--tier", default="quick")
     ap.add_argument("--seed", type=int, default=0)
     ap.add_argument("--replay")
+    ap.add_argument("--alt-only", action="store_true")
     ap.add_argument("--out", required=True)
     a = ap.parse_args()
     stage = os.environ.get("VF_STAGE")
@@ -25,60 +26,68 @@ def main():
     from vf.harness import Ctx
     ctx = Ctx(a.tier, a.seed)
     ALT = "/hostproc"
+
+    def alt_on():
+        """second configuration of a check: procfs mounted elsewhere (psutil.PROCFS_PATH), PSUTIL_DEBUG on, and -- the
+        interpreter having been started with -O -- assert statements compiled away"""
+        from vf.simk import world
+        from vf import harness
+        world.DEFAULT_PROCFS, ctx.alt = ALT, True
+        harness.ALT_SETTINGS["debug"] = True
+
     try:
         if a.replay:
             rp = json.load(open(a.replay))
             case = rp["case"]
             if isinstance(case, dict) and "_mount" in case:
-                from vf.simk import world
-                world.DEFAULT_PROCFS = case["_mount"]
-                ctx.alt = True
-                from vf import harness
-                harness.ALT_SETTINGS["debug"] = True
+                if not sys.flags.optimize:
+                    ctx.close()
+                    os.execv(sys.executable, [sys.executable, "-O", "-m", "vf.child"] + sys.argv[1:])
+                alt_on()
                 os.dup2(os.open(os.devnull, os.O_WRONLY), 2)
                 case = case["case"]
             res = mod.replay(ctx, case)
+        elif a.alt_only:
+            import tempfile
+            alt_on()
+            # psutil's debug output goes to stderr: keep it out of the way, show its tail only if the pass dies
+            sys.stderr.flush()
+            saved_fd, tmpf = os.dup(2), tempfile.TemporaryFile()
+            os.dup2(tmpf.fileno(), 2)
+            try:
+                res = mod.run(ctx)
+            except BaseException:
+                sys.stderr.flush()
+                os.dup2(saved_fd, 2)
+                tmpf.seek(0, 2)
+                tmpf.seek(max(0, tmpf.tell() - 4000))
+                sys.stderr.write(tmpf.read().decode("utf-8", "replace"))
+                raise
+            finally:
+                sys.stderr.flush()
+                os.dup2(saved_fd, 2)
+            for v in res.get("violations", []):
+                v["case"] = {"_mount": ALT, "case": v.get("case")}
+                if isinstance(v.get("alt_case"), dict):
+                    v["alt_case"] = {"_mount": ALT, "history": v["alt_case"]["history"]}
+                v["msg"] = "[procfs at %s, PSUTIL_DEBUG, python -O] %s" % (ALT, v.get("msg"))
         else:
             res = mod.run(ctx)
             res.setdefault("level", mod.LEVEL)
             if getattr(mod, "ALT_MOUNT", False):
-                # the same check once more with procfs mounted somewhere else (psutil.PROCFS_PATH, a documented setting):
-                # nothing answers under /proc then, so a path that bypasses get_procfs_path() fails
-                from vf.simk import world
-                from vf import harness
-                import tempfile
+                import subprocess
                 ctx.close()
-                world.DEFAULT_PROCFS, ctx.alt = ALT, True
-                harness.ALT_SETTINGS["debug"] = True
-                # psutil's debug output goes to stderr: keep it out of the way, show its tail only if the pass dies
-                sys.stderr.flush()
-                saved_fd, tmpf = os.dup(2), tempfile.TemporaryFile()
-                os.dup2(tmpf.fileno(), 2)
-                try:
-                    res2 = mod.run(ctx)
-                except BaseException:
-                    sys.stderr.flush()
-                    os.dup2(saved_fd, 2)
-                    tmpf.seek(0, 2)
-                    tmpf.seek(max(0, tmpf.tell() - 4000))
-                    sys.stderr.write(tmpf.read().decode("utf-8", "replace"))
-                    raise
-                finally:
-                    sys.stderr.flush()
-                    os.dup2(saved_fd, 2)
-                    os.close(saved_fd)
-                    tmpf.close()
-                    ctx.close()
-                    world.DEFAULT_PROCFS, ctx.alt = "/proc", False
-                    harness.ALT_SETTINGS["debug"] = False
-                for v in res2.get("violations", []):
-                    v["case"] = {"_mount": ALT, "case": v.get("case")}
-                    if isinstance(v.get("alt_case"), dict):
-                        v["alt_case"] = {"_mount": ALT, "history": v["alt_case"]["history"]}
-                    v["msg"] = "[procfs mounted at %s] %s" % (ALT, v.get("msg"))
+                out2 = a.out + ".alt"
+                p = subprocess.run([sys.executable, "-O", "-m", "vf.child", a.id, "--tier", a.tier, "--seed", str(a.seed),
+                                    "--alt-only", "--out", out2])
+                if p.returncode != 0 or not os.path.exists(out2):
+                    raise RuntimeError("second-configuration pass failed (rc=%s)" % p.returncode)
+                res2 = json.load(open(out2))
+                os.unlink(out2)
                 res["violations"] = res.get("violations", []) + res2.get("violations", [])
                 c2 = res2.get("coverage", {})
-                res["coverage"]["alt_procfs_mount"] = {"mount": ALT, "PSUTIL_DEBUG": True, "violations": len(res2.get("violations", [])),
+                res["coverage"]["alt_procfs_mount"] = {"mount": ALT, "PSUTIL_DEBUG": True, "python_optimize": 1,
+                                                       "violations": len(res2.get("violations", [])),
                                                        **{k: c2[k] for k in ("evaluations", "distinct_nontrivial", "states", "transitions") if k in c2}}
     finally:
         ctx.close()
